@@ -113,3 +113,14 @@ package frontend
 //@ contract iface Committer.Commit
 //@   assigns committedSeq(recv, 0)
 //@   ensures committedSeq(recv, 0) == seqOf(toCommit) && (result.1 == nil ==> stable(result.0))
+
+// ---- frames of the instruction-level compiler interface as used by std/lookup/logderivlookup (C13)
+//@ contract iface Compiler.ToCanonicalVariable
+//@   pure
+//@ contract iface CanonicalVariable.Compress
+//@   assigns *to
+//@   ensures len(*to) >= old(len(*to)) && (alloc(*to) == old(alloc(*to)) || fresh(*to))
+//@ contract iface Compiler.AddInstruction
+//@   pure
+//@ contract iface Compiler.InternalVariable
+//@   pure
